@@ -45,6 +45,8 @@ var operands = []string{
 	"65536", "65537", "1.5", "1e308",
 	"()", "(abc)", "BS", "[]", "[1 2]", "SA", "{}", "/SP load", "/MA load",
 	"/a", "true", "mark", "currentfile", "SD", "systemdict",
+	// names of existing resource categories / instances, system objects, an error handler object
+	"/Font", "/ProcSet", "/CIDInit", "errordict", "errordict /typecheck get", "StandardEncoding",
 }
 
 var sysOps = []string{
@@ -94,7 +96,7 @@ func pow(b, e int) int {
 }
 
 // operandsSmall is the pool used one arity above the full enumeration.
-var operandsSmall = []string{"0", "1", "-1", "9223372036854775807", "-9223372036854775808", "65537", "(abc)", "BS", "[1 2]", "SA", "{}", "/MA load", "/a", "SD", "mark"}
+var operandsSmall = []string{"0", "1", "-1", "9223372036854775807", "-9223372036854775808", "65537", "(abc)", "BS", "[1 2]", "SA", "{}", "/MA load", "/a", "SD", "mark", "/Font", "errordict /typecheck get"}
 
 func tuplesFamily(name string, operands []string, minArity, maxArity int, budget time.Duration) mc.Family {
 	type block struct{ arity, op, variant int }
@@ -307,7 +309,19 @@ var csAlphabet = func() []csTok {
 		"sbw": {12, 7}, "div": {12, 12}, "callothersubr": {12, 16}, "pop": {12, 17}, "setcurrentpoint": {12, 33},
 		"op2": {2}, "esc99": {12, 99}, "trunc255": {255, 1}, "trunc12": {12}, "trunc247": {247},
 	}
-	order := []string{"hstem", "vstem", "vmoveto", "rlineto", "hlineto", "vlineto", "rrcurveto", "closepath", "callsubr", "return", "hsbw",
+	// macro tokens: whole othersubr calls (flex start / coordinate pair / end, hint replacement)
+	cat := func(parts ...[]byte) []byte {
+		var b []byte
+		for _, p := range parts {
+			b = append(b, p...)
+		}
+		return b
+	}
+	cmds["flexstart"] = cat(csNum(0), csNum(1), []byte{12, 16})
+	cmds["flexpair"] = cat(csNum(0), csNum(2), []byte{12, 16})
+	cmds["flexend"] = cat(csNum(50), csNum(10), csNum(20), csNum(3), csNum(0), []byte{12, 16})
+	cmds["hintrepl"] = cat(csNum(4), csNum(1), csNum(3), []byte{12, 16})
+	order := []string{"flexstart", "flexpair", "flexend", "hintrepl", "hstem", "vstem", "vmoveto", "rlineto", "hlineto", "vlineto", "rrcurveto", "closepath", "callsubr", "return", "hsbw",
 		"endchar", "rmoveto", "hmoveto", "vhcurveto", "hvcurveto", "dotsection", "vstem3", "hstem3", "seac", "sbw", "div", "callothersubr",
 		"pop", "setcurrentpoint", "op2", "esc99", "trunc255", "trunc12", "trunc247"}
 	for _, n := range order {
@@ -315,6 +329,8 @@ var csAlphabet = func() []csTok {
 	}
 	return t
 }()
+
+const numSubrConfigs = 5
 
 func csSubrs(config int) [][]byte {
 	cat := func(parts ...[]byte) []byte {
@@ -339,6 +355,18 @@ func csSubrs(config int) [][]byte {
 			}
 		}
 		return s
+	case 4: // subrs that repeat one othersubr call many times
+		rep := func(b []byte, n int) []byte {
+			var out []byte
+			for i := 0; i < n; i++ {
+				out = append(out, b...)
+			}
+			return append(out, 11)
+		}
+		pair := cat(csNum(0), csNum(2), []byte{12, 16})
+		start := cat(csNum(0), csNum(1), []byte{12, 16})
+		return [][]byte{rep(pair, 8), cat(start, rep(pair, 9)), rep(pair, 40), {11}, rep(cat(csNum(1), csNum(2), []byte{21}, pair), 30),
+			rep(cat(csNum(3), csNum(0), []byte{12, 16}), 10), rep([]byte{12, 17}, 30), rep(csNum(7), 30)}
 	default: // flex subrs and a subr that never returns
 		return [][]byte{
 			cat(csNum(3), csNum(0), []byte{12, 16, 12, 17, 12, 17, 12, 33, 11}),
@@ -353,8 +381,8 @@ func csSubrs(config int) [][]byte {
 func charstringFamily(length int, budget time.Duration) mc.Family {
 	n := len(csAlphabet)
 	return mc.Family{
-		Name: "charstrings", Items: n * n * 4, Budget: budget,
-		Rule: fmt.Sprintf("every charstring of 2..%d tokens over %d tokens (8 numbers incl. +-2^31, 25 commands incl. callsubr/callothersubr/seac/div/pop, an undefined opcode, an undefined escape, three truncated encodings) x 4 subroutine tables (none; self-calling subr; call chain of depth 12; flex subrs + a subr without return), decoded through the export shim, and every 64th also through type1.Read on a generated font; item = (subr table, first two tokens); non-trivial = every case", length, n),
+		Name: "charstrings", Items: n * n * numSubrConfigs, Budget: budget,
+		Rule: fmt.Sprintf("every charstring of 2..%d tokens over %d tokens (8 numbers incl. +-2^31, 25 commands incl. callsubr/callothersubr/seac/div/pop, an undefined opcode, an undefined escape, three truncated encodings) x 5 subroutine tables (none; self-calling subr; call chain of depth 12; subrs repeating one othersubr call / pop / number 8..40 times; flex subrs + a subr without return), decoded through the export shim, and every 64th also through type1.Read on a generated font; item = (subr table, first two tokens); non-trivial = every case", length, n),
 		Body: func(c *mc.Ctx, item int) mc.Verdict {
 			cfg := item / (n * n)
 			toks := []int{item % n, (item / n) % n}
@@ -408,6 +436,57 @@ func charstringFamily(length int, budget time.Duration) mc.Family {
 		CrashKey: func(item int) string {
 			return "C01:crash:charstring:" + csAlphabet[item%n].name + "," + csAlphabet[(item/n)%n].name
 		},
+	}
+}
+
+// repeatFamily: one token repeated k times (after hsbw), optionally followed by
+// a second token: buffers sized for the well-formed case (24-entry operand
+// stack, 14 flex coordinates, 10 nested calls) must not be overrun.
+func repeatFamily(budget time.Duration) mc.Family {
+	n := len(csAlphabet)
+	counts := []int{7, 8, 9, 14, 15, 24, 25, 26, 100, 1000}
+	return mc.Family{
+		Name: "charstring-repeats", Items: n * len(counts), Budget: budget,
+		Rule: fmt.Sprintf("`0 500 hsbw` followed by one token (of %d, incl. the macro tokens flexstart/flexpair/flexend/hintrepl) repeated k times for k in %v, followed by each single token or nothing, x %d subroutine tables; shim decoder (and every 16th case through type1.Read); non-trivial = every case", n, counts, numSubrConfigs),
+		Body: func(c *mc.Ctx, item int) mc.Verdict {
+			t := csAlphabet[item%n]
+			k := counts[item/n]
+			cfg := c.Choose(numSubrConfigs)
+			tail := c.Choose(n + 1)
+			code := append(append([]byte{}, csNum(0)...), csNum(500)...)
+			code = append(code, 13)
+			for i := 0; i < k; i++ {
+				code = append(code, t.code...)
+			}
+			name := fmt.Sprintf("hsbw %s x%d", t.name, k)
+			if tail < n {
+				code = append(code, csAlphabet[tail].code...)
+				name += " " + csAlphabet[tail].name
+			}
+			subrs := csSubrs(cfg)
+			err := decodeCharString(code, subrs)
+			c.Step()
+			if shimAvailable && (item+tail+cfg)%16 == 0 {
+				err2 := readFontWith(code, subrs, 4)
+				c.Step()
+				if (err == nil) != (err2 == nil) {
+					v := mc.Fail("C01:charstring:shim-and-public-path-disagree", fmt.Sprintf("charstring %s subr table %d: shim err=%v, type1.Read err=%v", name, cfg, err, err2))
+					v.Render = name
+					return v
+				}
+			}
+			out := "accepted"
+			if err != nil {
+				out = "rejected"
+			}
+			v := mc.Pass(out, true)
+			if c.Render() {
+				v.Render = fmt.Sprintf("subrs#%d: %s → %v", cfg, name, err)
+			}
+			return v
+		},
+		Describe: func(item int) string { return fmt.Sprintf("%s repeated %d times", csAlphabet[item%n].name, counts[item/n]) },
+		CrashKey: func(item int) string { return "C01:crash:charstring-repeat:" + csAlphabet[item%n].name },
 	}
 }
 
@@ -738,6 +817,7 @@ func main() {
 				scannerFamily("scanner-all-bytes", all256, scanLen, budget),
 				scannerFamily("scanner-lexical-bytes", lexBytes, lexLen, budget),
 				charstringFamily(csLen, budget),
+				repeatFamily(budget),
 				mc.Family{
 					Name: "font-knobs", Items: len(knobs), Budget: budget,
 					Rule: "type1.Read on generated fonts: /lenIV from 17 values (min int, -2^40, -1, 0..7, 65536, 2^31, 2^62, max int, real, string, name, boolean) x charstrings of 0..9 bytes; missing FontInfo/Private/CharStrings/FontType; every dictionary entry the reader looks at (9 top-level, 10 Private, 9 FontInfo) set to each of 14 wrongly typed values; odd Encoding arrays; seac with hostile component codes x 4 encodings; no font; two fonts; non-trivial = every case",
